@@ -101,6 +101,14 @@ SEQDEF
 var g
 g = func(n) { if n == 0 { return 0 }; return 1 + g(n - 1) }
 return SEQ(g, [[a & 7], [300], [b & 7], [3]])`,
+	// 13: the callee keeps and mutates its variadic array; the Go caller re-uses its argument buffer
+	`param (a, b)
+SEQDEF
+keep := []
+f := func(x, ...rest) { keep = append(keep, rest); if len(rest) > 0 { rest[0] = x * 10 }; return len(rest) }
+lists := [[1, a, b], [2, b], [3], [4, 7, 8, 9]]
+r := SEQ(f, lists)
+return [r, keep, lists]`,
 }
 
 func verifC14Modules() *ModuleMap {
@@ -190,8 +198,11 @@ func VerifC14Invoke() {
 			defer inv.Release()
 		}
 		r := Array{}
+		buf := make([]Object, 0, 8) // one argument buffer re-used for every invocation
 		for _, t := range list {
-			args, _ := t.(Array)
+			targs, _ := t.(Array)
+			buf = append(buf[:0], targs...)
+			args := buf
 			v, err := inv.Invoke(args...)
 			if err != nil {
 				n, m := verifErrNameMsg(err)
